@@ -362,6 +362,8 @@ class HTMLSerializer(object):
                 data = token["data"]
                 if data.find("--") >= 0:
                     self.serializeError("Comment contains --")
+                elif data.startswith(">") or data.startswith("->"):
+                    self.serializeError("Comment starts with > or ->")
                 yield self.encodeStrict("<!--%s-->" % token["data"])
 
             elif type == "Entity":
